@@ -67,9 +67,10 @@ def key_handling(ctx):
             fi = p.lookup_method(P, meth)
             if fi is None:
                 raise AnalysisError(f"{P}.{meth} not found")
-            n = common.prng1(ctx, fi)
+            n = common.prng1(ctx, fi, self_class=P)
             if n < 1:
-                raise AnalysisError(f"{fi.qualname}: no random.split found")
+                ctx.rep.note(f"{P}.{meth}: no random.split was found on its value graph (the key handling is written in a "
+                             f"form that is not followed); the key-linearity rule is not applied")
 
 
 def _per_walker(run_: G.StepRun, t, fields_syms: Set) -> bool:
